@@ -470,6 +470,35 @@ Section Thm.
     destruct (H Hc) as (x & f & Hb & Hm & Hf). exists x, f. auto.
   Qed.
 
+  (* T15a': the same from ANY earlier state of the object -- whatever marker a previous run left,
+     whatever the file holds now (an older check point put back by the user, a file removed, the
+     file of another name after the model was renamed: the state s0 and its file system are
+     arbitrary) -- as soon as an estimation of either kind starts. *)
+  Lemma inv_after_start s0 o :
+    o = EstimateStart \/ o = QuickStart ->
+    (st_other val s0 = true -> st_susp val s0 = true) ->
+    Inv (step s0 o) ([], st_susp val s0).
+  Proof.
+    intros Ho H. destruct (start_effect s0 o Ho) as (_ & B & S & O).
+    unfold Inv; cbn [fst snd]. rewrite B, S, O.
+    split; [reflexivity|]. split; [exact H|]. split; [constructor|].
+    split; [reflexivity|]. intros E. contradiction E. reflexivity.
+  Qed.
+
+  Theorem file_is_best_after_any_start s0 o h :
+    o = EstimateStart \/ o = QuickStart ->
+    (st_other val s0 = true -> st_susp val s0 = true) ->
+    cf_save val cfg = true -> Forall (f_not_nan val) h ->
+    fst (fold_left spec_step h ([], st_susp val s0)) <> [] ->
+    exists x f, best_latest val (fst (fold_left spec_step h ([], st_susp val s0))) x f /\
+                st_fs val (run (step s0 o) h) fnm = Some (content x) /\
+                st_best val (run (step s0 o) h) = Some f.
+  Proof.
+    intros Ho H Hsave Hnn Hc.
+    destruct (inv_run h _ _ Hsave Hnn (inv_after_start s0 o Ho H)) as (_ & _ & _ & _ & HH).
+    destruct (HH Hc) as (x & f & Hb & Hm & Hf). exists x, f. auto.
+  Qed.
+
   (* T15c: the saved point is never below the first counted evaluation of the estimation, i.e.
      below the point the estimation started from *)
   Theorem restart_not_below_start h d x1 f1 rest :
